@@ -10,7 +10,8 @@ LEVEL = 'fault_enumeration'
 RULE = (
     'random trees of nested Scope/until blocks (depth <= 4, volatile and non-volatile children, '
     'children started now/after/at, children that spawn siblings into their parent block - also '
-    'during shutdown and after the block has ended) with exit causes {normal, body exception, '
+    'during shutdown, from their own clean-up while they are being closed, and after the block '
+    'has ended) with exit causes {normal, body exception, '
     'child failure, until-notification of every kind, owner cancelled, owner closed by an outer '
     'abort}; cancellations are injected at activation boundaries (quick: sampled; thorough: '
     'every boundary x 3 victims + double faults). Monitors: all children done when control '
@@ -30,13 +31,14 @@ ASSUMPTIONS = [
     'an event or is activated after it began',
     'CPython 3.12.1; probe on Loop.run/schedule/_run_coroutine',
 ]
-REQUIRED_STATS = ['scope_exits', 'containment_events_checked', 'injected', 'normal_exits']
+REQUIRED_STATS = ['scope_exits', 'containment_events_checked', 'injected', 'normal_exits',
+                  'cleanup_spawns']
 
 WEIGHTS = {
     'scope': 16, 'until': 14, 'spawn': 8, 'raise': 2.5, 'cancel': 5, 'await_task': 3,
     'wait': 12, 'setflag': 3, 'settracked': 2, 'lock': 1, 'put': 1, 'get': 1, 'iter': 0.5,
     'close': 0.5, 'borrow': 1, 'resource': 0.5, 'transfer': 1, 'ticker': 1, 'collect': 2,
-    'first': 1,
+    'first': 1, 'guard': 6,
 }
 
 
